@@ -142,7 +142,13 @@ def run_text_case(ref, wd, tmpd, canary, r, res, v, entry, rnd, tid):
                 pe += ['<none>'] * (n - len(pe))
                 diffs = [[x, y] for x, y in zip(pa, pe) if x != y]
                 want = [[tl.line(p[0], v), tl.line(p[1], v)] for p in res['diffs']]
-                if res['rdem'] and diffs != want:
+
+                def asked(x_):
+                    # (the specification's pairs are pairs of NORMALISED lines; a concrete token may itself begin with a blank -
+                    # the remove marker of variant 2 - which the requested stripping takes away)
+                    x_ = x_.lstrip() if o['ls'] else x_
+                    return x_.rstrip() if o['rs'] else x_
+                if res['rdem'] and [[asked(a_), asked(b_)] for a_, b_ in diffs] != [[asked(a_), asked(b_)] for a_, b_ in want]:
                     ev['diffs_match'] = False
                     ev['post_diffs'] = diffs
                     ev['want_diffs'] = want
